@@ -138,6 +138,10 @@ pub struct EqCase {
     pub delta: f32,
     /// universal only: angle given as None (field 2 then perturbs Some(delta) vs None)
     pub angle_none: bool,
+    /// the perturbed coordinate is large and the pair differs by a few f32 steps of it (each step
+    /// is more than EPS from magnitude 128 on): (magnitude, steps)
+    #[serde(default)]
+    pub big: Option<(f32, u8)>,
 }
 
 pub fn eq_case() -> impl Strategy<Value = EqCase> {
@@ -148,8 +152,8 @@ pub fn eq_case() -> impl Strategy<Value = EqCase> {
         2 => (0.01f32.ln()..100f32.ln()).prop_map(|x: f32| x.exp()),
         1 => Just(0.0f32),
     ];
-    (any::<bool>(), [0.25f32..2.0, 0.25f32..2.0, 0.25f32..2.0, 0.25f32..2.0, 0.25f32..2.0], 0usize..5, delta, any::<bool>(), any::<bool>(), prop_oneof![2 => Just(1.0f32), 1 => 500.0f32..8000.0])
-        .prop_map(|(ltwh, mut base, field, d, neg, angle_none, far)| {
+    (any::<bool>(), [0.25f32..2.0, 0.25f32..2.0, 0.25f32..2.0, 0.25f32..2.0, 0.25f32..2.0], 0usize..5, delta, any::<bool>(), any::<bool>(), prop_oneof![2 => Just(1.0f32), 1 => 500.0f32..8000.0], prop_oneof![6 => Just(None), 1 => (130.0f32..9000.0, 1u8..4).prop_map(Some)])
+        .prop_map(|(ltwh, mut base, field, d, neg, angle_none, far, big)| {
             // the coordinates that are NOT perturbed may be large (a box far from the origin): the
             // perturbed one stays small so that its f32 difference is exact
             for pos in 0..2 {
@@ -170,7 +174,8 @@ pub fn eq_case() -> impl Strategy<Value = EqCase> {
             if ltwh && (field == 2 || field == 3) && base[field] + delta <= 0.0 {
                 delta = -delta;
             }
-            EqCase { ltwh, base, field, delta, angle_none }
+            let big = if (ltwh && field == 4) || (!ltwh && field == 2 && angle_none) { None } else { big };
+            EqCase { ltwh, base, field, delta, angle_none, big }
         })
 }
 
@@ -178,6 +183,10 @@ pub fn check_eq(c: &EqCase) -> CaseResult {
     let mut other = c.base;
     other[c.field] = c.base[c.field] + c.delta;
     let mut base = c.base;
+    if let Some((mag, steps)) = c.big {
+        base[c.field] = mag;
+        other[c.field] = f32::from_bits(mag.to_bits() + steps as u32);
+    }
     if !c.ltwh && c.angle_none {
         // None stands for angle 0
         base[2] = 0.0;
@@ -205,7 +214,7 @@ pub fn check_eq(c: &EqCase) -> CaseResult {
     } else if d > 1.1 * EPS {
         ensure!(!ab && !ba, format!("eq-far-{}-{}", kind, fname), "{}: boxes differing by {} > EPS in {} compare equal (a==b {}, b==a {})", kind, other[c.field] - base[c.field], fname, ab, ba);
     }
-    Ok(CaseOk::new(!band && d > 0.0).label(fname).label_if(band, "band").label_if(d > 1.1 * EPS, "beyond_eps"))
+    Ok(CaseOk::new(!band && d > 0.0).label(fname).label_if(band, "band").label_if(d > 1.1 * EPS, "beyond_eps").label_if(c.big.is_some(), "neighbouring_f32_values_of_a_large_coordinate"))
 }
 
 // ---------------------------------------------------------------------------------------------
